@@ -21,7 +21,7 @@ class C15(Spec):
     rule = ("Http::Client (1-3 threads, 1-4 connections per host, request time-out 600 ms) against a scripted raw loopback "
             "server; 1-14 requests issued at once (well above the connection limit) and a second wave 100 ms after the "
             "time-out; every request asks for its own number and the server answers 'resp-<number>': at once, delayed, "
-            "byte-dribbled, chunked, with Connection: close, never, half an answer and then nothing, or late (300 ms after the time-out, so the late answer "
+            "byte-dribbled, chunked, with Connection: close, never, half an answer and then nothing, the whole head and most of the body and then nothing, or late (300 ms after the time-out, so the late answer "
             "arrives while a second-wave request is in flight on the same pool slot). Per request: fulfilled with which "
             "number / rejected / never settled, promises settled twice, and the most simultaneous established client "
             "connections (sampled from /proc/net/tcp) against the limit; compared with the model run on the same timed "
@@ -38,7 +38,7 @@ class C15(Spec):
     def corpus(self):
         return ["K 1 1 600 l e", "K 1 1 600 l,a a", "K 1 2 600 n,a a,a", "K 1 1 600 l,l,a,l,a a,e",
                 "K 2 2 600 n,l,a,b,c,n,a,a e,e,a", "K 1 2 600 x,a a,x", "K 1 8 0 a,b,c,d -",
-                "K 1 1 600 h a", "K 1 2 600 h,h,a,a a,e,a",
+                "K 1 1 600 h a", "K 1 2 600 h,h,a,a a,e,a", "K 1 1 600 H a", "K 1 2 600 H,H,a,a a,e,a",
                 "K 1 2 1900 g,g,a -", "K 1 1 2500 g a"]
 
     def gen(self, rng, tier):
@@ -52,7 +52,7 @@ class C15(Spec):
             for _i in range(k):
                 r = rng.random()
                 if r < 0.25 and slow < 3 * m:
-                    w1.append(rng.choice("nlh")); slow += 1
+                    w1.append(rng.choice("nlhH")); slow += 1
                 elif r < 0.3 and k <= m:
                     w1.append("x")
                 else:
@@ -75,23 +75,23 @@ class C15(Spec):
                 return "request %d (%s) was never settled (%s)" % (i, b, case)
             if b in "adbcexg" and o != "F%d" % i:
                 return "request %d was answered by the server but its promise was %s (%s)" % (i, o, case)
-            if b in "nlh" and int(t[3]) > 0 and o != "R":
+            if b in "nlhH" and int(t[3]) > 0 and o != "R":
                 return "request %d was not answered within its time-out but its promise was %s (%s)" % (i, o, case)
         if f["twice"] != "0":
             return "a request's promise was settled more than once (%s)" % case
         # a pool slot opens a new connection only after its previous one was closed (time-out or server close)
-        closes = sum(1 for b in behs if b in "nlhx")
+        closes = sum(1 for b in behs if b in "nlhHx")
         if int(f["accepted"]) > int(f["limit"]) + closes:
             return "the server accepted %s connections: more than the limit %s plus the %d connections closed by time-out/server (%s)" % (f["accepted"], f["limit"], closes, case)
         return None
 
     def nontrivial(self, case, impl):
         t = case.split()
-        return any(b in t[4] for b in "nlh") or len(t[4].split(",")) > int(t[2])
+        return any(b in t[4] for b in "nlhH") or len(t[4].split(",")) > int(t[2])
 
     def kind(self, case, impl):
         t = case.split()
-        return "m%s-%s%s" % (t[2], "timeout" if any(b in t[4] for b in "nlh") else "answered", "-overflow" if len(t[4].split(",")) > int(t[2]) else "")
+        return "m%s-%s%s" % (t[2], "timeout" if any(b in t[4] for b in "nlhH") else "answered", "-overflow" if len(t[4].split(",")) > int(t[2]) else "")
 
 
 def run(rep, tier, seed):
